@@ -152,6 +152,8 @@ pub struct SaleWorld {
     /// (the creation fee of a whitelist instantiated for Op::SetWhitelist): subtracted from
     /// the balances shown to the model, which only follows the minter's own money flows
     pub ext_drift: BTreeMap<(String, String), i128>,
+    /// cw2 (name, version) the minter stored at creation: the contract's own CONTRACT_NAME
+    pub own_cw2: (String, String),
 }
 
 const S: u64 = 1_000_000_000;
@@ -254,6 +256,7 @@ impl SaleWorld {
             wl_code,
             proof_ctx: None,
             ext_drift: BTreeMap::new(),
+            own_cw2: (String::new(), String::new()),
         };
         let denom = cfg.fp.denom.clone();
         if cfg.wl != WlKind::None {
@@ -292,6 +295,7 @@ impl SaleWorld {
         for d in [NATIVE, IBC] {
             w.initial_supply.insert(d.to_string(), chain::supply(&w.app, d));
         }
+        w.own_cw2 = crate::w_migrate::get_cw2(&w.app, &w.minter);
         Ok(w)
     }
 
@@ -715,6 +719,36 @@ pub enum Op {
     SudoParams { min_price: Option<u128>, mint_fee_bps: Option<u64>, airdrop_price: Option<u128>, airdrop_fee_bps: Option<u64>, offset: Option<u64>, max_pal: Option<u32>, shuffle_fee: Option<u128> },
     /// whitelist admin: add / remove a member (plain & tiered stage 0)
     WlAddMember { who: String },
+    /// migrate the minter to its own code id, sent by `who` (the wasm admin is the creator).
+    /// `stored` first rewrites the cw2 (name, version) the contract holds, as if an older
+    /// (or foreign) deployment were being upgraded
+    Migrate {
+        who: String,
+        #[serde(default)]
+        stored: Option<(String, String)>,
+    },
+}
+
+/// MAJOR.MINOR.PATCH with plain decimal numbers (what model/Semver.v accepts); anything else is None
+pub fn parse_plain_version(v: &str) -> Option<(u64, u64, u64)> {
+    let parts: Vec<&str> = v.split('.').collect();
+    if parts.len() != 3 {
+        return None;
+    }
+    let mut out = [0u64; 3];
+    for (i, p) in parts.iter().enumerate() {
+        if p.is_empty() || !p.bytes().all(|b| b.is_ascii_digit()) || (p.len() > 1 && p.starts_with('0')) {
+            return None;
+        }
+        out[i] = p.parse().ok()?;
+    }
+    Some((out[0], out[1], out[2]))
+}
+pub fn coq_version(v: &str) -> String {
+    match parse_plain_version(v) {
+        Some((a, b, c)) => format!("(Some ({}, {}, {}))", a, b, c),
+        None => "None".into(),
+    }
 }
 
 pub struct StepOut {
@@ -772,6 +806,59 @@ impl SaleWorld {
                 let f = self.factory.clone();
                 let r = chain::sudo(&mut self.app, &f, &msg);
                 return not_step(r.is_ok(), r.err());
+            }
+            Op::Migrate { who, stored } => {
+                if let Some((n, v)) = stored {
+                    // "@own" stands for what the contract stored at creation
+                    let n = if n == "@own" { self.own_cw2.0.clone() } else { n.clone() };
+                    let v = if v == "@own" { self.own_cw2.1.clone() } else { v.clone() };
+                    crate::w_migrate::set_cw2(&mut self.app, &self.minter, &n, &v);
+                }
+                let (name, version) = crate::w_migrate::get_cw2(&self.app, &self.minter);
+                let now = chain::now(&self.app);
+                let code_id = self.factory_params()["code_id"].as_u64().unwrap();
+                let admin = self.app.wrap().query_wasm_contract_info(self.minter.to_string()).ok().and_then(|i| i.admin);
+                let is_admin = admin.as_deref() == Some(who.as_str());
+                let before_digest = chain::storage_digest(&self.app, &self.minter);
+                let before_bal = self.balances_raw();
+                let m = self.minter.clone();
+                let sender = Addr::unchecked(who.clone());
+                let res = match crate::util::catch(|| self.app.migrate_contract(sender, m, &json!({}), code_id)) {
+                    Ok(Ok(_)) => Ok(()),
+                    Ok(Err(e)) => Err(format!("{:#}", e)),
+                    Err(p) => Err(p),
+                };
+                let ok = res.is_ok();
+                let fp = self.fp_coq();
+                let wv_after = self.cur_wl_view(who);
+                let obs = self.observe();
+                let obs_coq = coq_list(&obs.iter().map(|x| x.to_string()).collect::<Vec<_>>());
+                let last = {
+                    let st = self.app.contract_storage(&self.minter);
+                    vending_minter::state::LAST_DISCOUNT_TIME.load(&*st).unwrap().nanos()
+                };
+                let bal = self.balances_coq();
+                let coq = format!(
+                    "(IMigrate (mkMig {} {} {} {} {} {} {} {} {} {}))",
+                    now,
+                    coq_bool(name == self.own_cw2.0),
+                    coq_version(&version),
+                    coq_bool(is_admin),
+                    coq_bool(ok),
+                    fp,
+                    wv_after,
+                    obs_coq,
+                    last,
+                    bal
+                );
+                let mut err = res.err();
+                if !ok && (chain::storage_digest(&self.app, &self.minter) != before_digest || self.balances_raw() != before_bal) {
+                    err = Some(format!("STATE-CHANGED-ON-FAILURE: {}", err.unwrap_or_default()));
+                }
+                if ok && self.balances_raw() != before_bal {
+                    err = Some("MIGRATE-MOVED-FUNDS".into());
+                }
+                return StepOut { coq: Some(coq), ok, err, minted: None, is_minter_step: true };
             }
             Op::WlAddMember { who } => {
                 if let Some(wl) = self.whitelist.clone() {
@@ -994,7 +1081,90 @@ pub fn case_coq(w: &mut SaleWorld, init: &str, init_bal: &str, steps: &[String])
         init,
         init_bal,
         coq_list(&accts),
-        coq_list(steps),
+        coq_list(&steps.iter().map(|s| wrap_item(s, "(mkStep", "IStep")).collect::<Vec<_>>()),
         coq_list(&pos)
     )
+}
+
+/// a step record becomes a history item of the correspondence vocabulary; migrations are items already
+pub fn wrap_item(s: &str, record_prefix: &str, ctor: &str) -> String {
+    if s.trim_start().starts_with(record_prefix) {
+        format!("({} {})", ctor, s)
+    } else {
+        s.to_string()
+    }
+}
+
+// ---------- migrations inside histories: shared generator pieces ----------
+/// stored cw2 versions worth trying: every `Version::new(a, b, c)` literal of the nine
+/// minters' sources with its patch / minor neighbours, the code's own version ("@own") and
+/// its neighbours, a far future version, and strings that do not parse
+pub fn migrate_version_pool() -> Vec<String> {
+    let repo = std::env::var("VERIF_REPO").unwrap_or_else(|_| "/repo".to_string());
+    let mut out: std::collections::BTreeSet<String> = std::collections::BTreeSet::new();
+    let mut around = |a: u64, b: u64, c: u64, out: &mut std::collections::BTreeSet<String>| {
+        out.insert(format!("{}.{}.{}", a, b, c));
+        out.insert(format!("{}.{}.{}", a, b, c + 1));
+        out.insert(format!("{}.{}.0", a, b + 1));
+        if c > 0 {
+            out.insert(format!("{}.{}.{}", a, b, c - 1));
+        } else if b > 0 {
+            out.insert(format!("{}.{}.9", a, b - 1));
+            out.insert(format!("{}.{}.0", a, b - 1));
+        }
+    };
+    let mut names: Vec<String> = VARIANTS.iter().map(|v| v.name.to_string()).collect();
+    names.extend(["open-edition-minter", "open-edition-minter-wl-flex", "open-edition-minter-merkle-wl"].iter().map(|s| s.to_string()));
+    for n in names {
+        let p = std::path::Path::new(&repo).join(format!("contracts/minters/{}/src/contract.rs", n));
+        let Ok(src) = std::fs::read_to_string(&p) else { continue };
+        let mut rest = &src[..];
+        while let Some(i) = rest.find("Version::new(") {
+            rest = &rest[i + "Version::new(".len()..];
+            let end = rest.find(')').unwrap_or(0);
+            let nums: Vec<u64> = rest[..end].split(',').filter_map(|x| x.trim().parse().ok()).collect();
+            if nums.len() == 3 {
+                around(nums[0], nums[1], nums[2], &mut out);
+            }
+        }
+        // the workspace version the code reports
+        if let Ok(toml) = std::fs::read_to_string(std::path::Path::new(&repo).join("Cargo.toml")) {
+            if let Some(l) = toml.lines().find(|l| l.trim_start().starts_with("version") && l.contains('"')) {
+                let v = l.split('"').nth(1).unwrap_or("");
+                if let Some((a, b, c)) = parse_plain_version(v) {
+                    around(a, b, c, &mut out);
+                }
+            }
+        }
+    }
+    around(3, 9, 0, &mut out);
+    let mut v: Vec<String> = out.into_iter().collect();
+    v.extend(["@own", "@own", "99.0.0", "0.0.1", "abc", "3.9", ""].iter().map(|s| s.to_string()));
+    v
+}
+
+/// (sender, stored) of one random migration: mostly the wasm admin, mostly the own name
+pub fn gen_migrate_args(rng: &mut Rng, pool: &[String]) -> (String, Option<(String, String)>) {
+    let who = if rng.chance(6, 7) { CREATOR } else { *rng.pick(&[STRANGER, BUYERS[0], PAYADDR]) };
+    let stored = if rng.chance(1, 7) {
+        None
+    } else {
+        let name = if rng.chance(1, 10) { "crates.io:something-else".to_string() } else { "@own".to_string() };
+        Some((name, rng.pick(pool).clone()))
+    };
+    (who.to_string(), stored)
+}
+
+/// insert migrations into a generated history: each position with probability `permille`/1000
+pub fn sprinkle_migrates(rng: &mut Rng, ops: &mut Vec<Op>, permille: u64) {
+    let pool = migrate_version_pool();
+    let mut i = 0;
+    while i <= ops.len() {
+        if rng.below(1000) < permille {
+            let (who, stored) = gen_migrate_args(rng, &pool);
+            ops.insert(i, Op::Migrate { who, stored });
+            i += 1;
+        }
+        i += 1;
+    }
 }
